@@ -258,6 +258,21 @@ def _commit_hook(conn, txn):
 
 
 ZODB.Connection.Connection._commit = _commit_hook
+_ORIG_TMP_STORE = ZODB.Connection.TmpStore.store
+
+
+def _tmp_store_hook(self, oid, serial, data, version, txn):
+    r = _ORIG_TMP_STORE(self, oid, serial, data, version, txn)
+    s = CURRENT
+    if s is not None:
+        base = getattr(self._storage, '_storage', None)
+        for i, st in enumerate(s.storages):
+            if st is base:
+                s.tmp_log[i].append((oid, data))
+    return r
+
+
+ZODB.Connection.TmpStore.store = _tmp_store_hook
 
 
 class Snap:
@@ -296,6 +311,10 @@ class Session:
         self.edges = {}
         self.ncommits = 0
         self.failed = False
+        self.txn_open = False
+        self.txn_events, self.sps, self.txn_implicit = [], [], set()
+        self.tmp_log = {}
+        self.before = None
         self.events = []
         self.counts = {}
         c14_classes.show_gone()
@@ -344,6 +363,7 @@ class Session:
         plan = [bytes.fromhex(x) for x in plan]
         self.issued[i] = []
         self.store_log[i] = []
+        self.tmp_log[i] = []
         counter = [0]
 
         def new_oid():
@@ -551,6 +571,10 @@ class Session:
                 del o.poison
         elif k == 'commit':
             self.do_commit()
+        elif k == 'savepoint':
+            self.do_savepoint()
+        elif k == 'rollback':
+            self.do_rollback(op[1])
 
     # -- the commit, observed ---------------------------------------------------------------
     def leaf_handle(self, snap, o):
@@ -616,6 +640,7 @@ class Session:
                 snap.state[h] = tr_value(o.__getstate__(), leaf, memo)
         snap.issued_from = len(self.issued[snap.db])
         snap.log_from = len(self.store_log[snap.db])
+        snap.tmp_from = len(self.tmp_log[snap.db])
         snap.conns = {}
         for name in conn.db().databases:
             c = conn.connections.get(name)
@@ -627,29 +652,18 @@ class Session:
     def after_commit(self, snap, exc):
         snap.exc = exc
         snap.fresh = self.issued[snap.db][snap.issued_from:]
-        snap.stored = self.store_log[snap.db][snap.log_from:]
+        if snap.conn._savepoint_storage is not None:       # _commit(None) of a savepoint: into the TmpStore
+            snap.stored = self.tmp_log[snap.db][snap.tmp_from:]
+        else:
+            snap.stored = self.store_log[snap.db][snap.log_from:]
         snap.post_oid = [getattr(o, 'pseudo_oid', None) if isinstance(o, Snap) else o._p_oid for o in snap.objs]
         snap.post_jar = [getattr(o, 'pseudo_jar', None) if isinstance(o, Snap) else o._p_jar for o in snap.objs]
 
-    def do_commit(self):
-        self.events = []
-        for i in self.store_log:
-            self.store_log[i] = []
-        before = [st.lastTransaction() for st in self.storages]
-        try:
-            self.tm.commit()
-            exc = None
-        except Exception as e:
-            exc = e
-            self.failed = True
-            self.tm.abort()
-        self.ncommits += 1
+    def process_events(self):
+        """driver lines, real observations and the oracle's verdict for the _commit calls just made"""
         orc = Oracle(self)
-        txn_ok = exc is None
-        implicit = set()
-        stored_keys = []
-        self.emit('txnbegin', 'ok')
         for snap in self.events:
+            self.txn_events.append(snap)
             modelled = snap.exc is None or isinstance(snap.exc, InvalidObjectReference)
             if not modelled:
                 self.count('commit:unmodelled-failure')
@@ -671,14 +685,14 @@ class Session:
             if snap.exc is not None:
                 self.emit('commit', 'err:InvalidRef%d' % invalid_why(snap.exc))
                 self.count('commit:InvalidRef%d' % invalid_why(snap.exc))
-                orc.commit_outcome(snap, implicit, failed=True)
+                orc.commit_outcome(snap, self.txn_implicit, failed=True)
                 break
             self.count('commit:ok')
             self.emit('commit', 'ok stored=' + ','.join(sorted(o.hex() for o, _ in snap.stored)))
             self.emit('final', ' '.join('%d=%s@%s' % (
                 h, snap.post_oid[h].hex() if snap.post_oid[h] is not None else '-',
                 self.jar_text(snap.post_jar[h])) for h in range(len(snap.objs))))
-            orc.commit_outcome(snap, implicit, failed=False)
+            orc.commit_outcome(snap, self.txn_implicit, failed=False)
             for oid, data in snap.stored:
                 key = '%d:%s' % (snap.db, oid.hex())
                 try:
@@ -690,11 +704,68 @@ class Session:
                     self.emit('rec ' + key, 'undecodable:%s' % type(e).__name__)
                 self.emit('refs ' + key, self.refs_text(data))
                 self.emit('getrefs ' + key, self.getrefs_text(data))
-                stored_keys.append((snap.db, oid))
             orc.records(snap)
             for h in range(len(snap.objs)):
                 if snap.oid[h] is None and snap.post_oid[h] is not None:
-                    implicit.add((snap.db, snap.post_oid[h]))
+                    self.txn_implicit.add((snap.db, snap.post_oid[h]))
+        self.events = []
+
+    def begin_txn(self):
+        if not self.txn_open:
+            self.txn_open = True
+            self.txn_events, self.sps, self.txn_implicit = [], [], set()
+            self.emit('txnbegin', 'ok')
+
+    def do_savepoint(self):
+        """transaction.savepoint(): every joined connection runs _commit(None) into its TmpStore"""
+        self.events = []
+        try:
+            sp = self.tm.savepoint()
+        except Exception as e:
+            self.finish_txn(e)
+            return
+        self.begin_txn()
+        self.process_events()
+        self.emit('spmark', 'ok')
+        self.sps.append((sp, len(self.txn_events)))
+        self.count('savepoint')
+
+    def do_rollback(self, j):
+        if not self.txn_open or not 0 <= j < len(self.sps):
+            return
+        sp, mark = self.sps[j]
+        sp.rollback()
+        self.txn_events = self.txn_events[:mark]      # what later savepoints wrote is discarded
+        self.sps = self.sps[:j + 1]
+        self.emit('sprollback %d' % j, 'ok')
+        self.count('rollback')
+
+    def do_commit(self):
+        self.events = []
+        for i in self.store_log:
+            self.store_log[i] = []
+        self.before = [st.lastTransaction() for st in self.storages]
+        try:
+            self.tm.commit()
+            exc = None
+        except Exception as e:
+            exc = e
+        self.finish_txn(exc)
+
+    def finish_txn(self, exc):
+        if exc is not None:
+            self.failed = True
+            self.tm.abort()
+        before = getattr(self, 'before', None) or [st.lastTransaction() for st in self.storages]
+        self.before = None
+        self.ncommits += 1
+        orc = Oracle(self)
+        txn_ok = exc is None
+        self.begin_txn()
+        self.process_events()
+        self.txn_open = False
+        events = self.txn_events
+        stored_keys = [(snap.db, oid) for snap in events if snap.exc is None for oid, _ in snap.stored]
         self.emit('txnend' if txn_ok else 'txnabort', 'ok')
         if txn_ok:
             for i, st in enumerate(self.storages):
@@ -706,15 +777,20 @@ class Session:
                     if it != lg:
                         self.violation('C14:stored-set', 'storage.iterator() of the transaction lists %r, '
                                        'store() was called for %r' % (it, lg))
-            if all(snap.exc is None for snap in self.events):
-                orc.remember(self.events)
+                    sv = sorted({o for d, o in stored_keys if d == i})
+                    if it != sv and all(snap.exc is None for snap in events):
+                        self.violation('C14:stored-set', 'the transaction holds records for %s; its savepoints and '
+                                       'commit (minus what was rolled back) stored %s'
+                                       % ([o.hex() for o in it], [o.hex() for o in sv]))
+            if all(snap.exc is None for snap in events):
+                orc.remember(events)
                 keys = sorted(set(stored_keys) | {(i, Z64) for i in range(self.ndb)})
                 self.load_phase(keys, 'pool')
                 if self.case.get('fresh_each', True):
                     self.load_phase(keys, 'fresh')
         else:
             # a failed commit must leave every object that had no oid without one: nothing stored it
-            for snap in self.events:
+            for snap in events:
                 for h, o in enumerate(snap.objs):
                     if not isinstance(o, Snap) and snap.oid[h] is None and o._p_oid is not None:
                         self.stale.add((snap.db, o._p_oid))
@@ -722,7 +798,7 @@ class Session:
                                        'aborted, but new object %d (%s) keeps oid %s of the aborted commit: a '
                                        'later commit will refer to it without storing it'
                                        % (type(exc).__name__, h, type(o).__name__, o._p_oid.hex()))
-            orc.txn_failed(self.events, before)
+            orc.txn_failed(events, before)
 
     @staticmethod
     def refs_text(data):
@@ -803,6 +879,55 @@ class Session:
                 dup[0] += 1
         return dup[0], out
 
+    def weak_deref(self, dbs, keys):
+        """Every stored weak reference, called in a connection that has loaded nothing but the
+        referring object (in particular has not yet opened the target's database), yields the
+        object with the reference's oid in the reference's database — or None iff no such record."""
+        have = {(i, oid) for i, st in enumerate(self.storages) for oid in self._all_records(st)}
+
+        def scan(v, acc, seen):
+            if isinstance(v, WeakRef):
+                acc.append(v)
+            elif isinstance(v, (list, tuple)) and id(v) not in seen:
+                seen.add(id(v))
+                for x in v:
+                    scan(x, acc, seen)
+            elif isinstance(v, dict) and id(v) not in seen:
+                seen.add(id(v))
+                for k, x in v.items():
+                    scan(k, acc, seen)
+                    scan(x, acc, seen)
+        for d, oid in keys:
+            if (d, oid) not in have:
+                continue
+            tm = transaction.TransactionManager()
+            c = dbs[d].open(transaction_manager=tm)
+            try:
+                c.cacheMinimize()
+                obj = c.get(oid)
+                obj._p_activate()
+                refs = []
+                scan(obj.__getstate__(), refs, set())
+                for w in refs:
+                    name = getattr(w, 'database_name', None)
+                    td = d if name is None else dbidx(name)
+                    self.count('weakref-deref' + ('' if name is None else ':cross-db'))
+                    t = w()
+                    got = None if t is None else (dbidx(t._p_jar.db().database_name), t._p_oid)
+                    want = (td, w.oid) if (td, w.oid) in have else None
+                    if got != want:
+                        self.violation('C14:weakref-target', 'weak reference %s:%s in record %d:%s, called in a '
+                                       'fresh connection, yields %s; expected %s' % (
+                                           td, w.oid.hex(), d, oid.hex(),
+                                           None if got is None else '%d:%s' % (got[0], got[1].hex()),
+                                           None if want is None else '%d:%s' % (want[0], want[1].hex())))
+            except (POSKeyError, KeyError):
+                pass          # reported by the walk
+            finally:
+                tm.abort()
+                c.cacheMinimize()     # leave only ghosts behind: pooled connections get paired anew
+                c.close()
+
     def load_phase(self, keys, variant, missing=False):
         ktxt = ','.join('%d:%s' % (d, o.hex()) for d, o in keys)
         lenv = 'lenv %s %s' % (','.join(map(str, range(self.ndb))),
@@ -834,6 +959,18 @@ class Session:
             try:
                 if missing:
                     c14_classes.hide_gone()
+                if self.ndb > 1:
+                    # own DB objects: a connection of d1 opened as primary keeps its d0 partner for ever
+                    # (Connection.connections), and would bring it along when it is later handed out as
+                    # the secondary of another d0 connection
+                    dbs2 = self.fresh_dbs()
+                    try:
+                        self.weak_deref(dbs2, keys)
+                    finally:
+                        for db in dbs2:
+                            db.close()
+                else:
+                    self.weak_deref(dbs, keys)
                 c = dbs[0].open(transaction_manager=transaction.TransactionManager())
                 res = [self.real_walk(c, keys) + (None if missing else self.args_seen,)]
                 c.transaction_manager.abort()
@@ -1304,6 +1441,43 @@ def gen_case(rng, thorough=False):
             ops += [['poison', victim], ['touch', victim], ['commit']]
             return case
         ops.append(['commit'])
+    if ndb == 1 and weak_p == 0.0 and rng.random() < 0.5:
+        # one more transaction with savepoints: objects are created and written by savepoints, the
+        # transaction is rolled back to an earlier savepoint, and the same in-memory objects are attached
+        # again.  (Only in programs without weak references — a WeakRef object caches the oid it was pickled
+        # with, also across a rollback — and with nothing between the last savepoint and the rollback: what
+        # happens to objects modified in between is C11/C12's subject.)
+        ops.append(['root', 0, 'spj', rng.choice(allnames)])        # the connection joins the transaction
+        ops.append(['savepoint'])
+        batches = []
+        k = rng.choice([1, 2, 2, 3])
+        for i in range(k):
+            before = list(allnames)
+            fresh = new_objs(rng.choice([1, 2, 3]))
+            allnames += fresh
+            for n in fresh:
+                if rng.random() < 0.7:
+                    ops.append(['set', n, 'f%d' % rng.randrange(3), gen_value(rng, allnames, rng.choice([0, 1, 2]), 0.0)])
+            for j, n in enumerate(fresh):
+                if j == 0 or rng.random() < 0.6:
+                    if rng.random() < 0.5:
+                        ops.append(['root', 0, n, n])
+                    else:
+                        ops.append(['set', rng.choice(before), 'c%d' % i, ['l', [['r', n], ['a', i]]]])
+            ops.append(['savepoint'])
+            batches.append(fresh)
+        target = rng.randrange(0, k) if rng.random() < 0.85 else k
+        ops.append(['rollback', target])
+        kept = [n for n in allnames if not any(n in b for b in batches[target:])]
+        for n in [n for b in batches[target:] for n in b]:
+            r = rng.random()
+            if r < 0.45:
+                ops.append(['root', 0, n, n])
+            elif r < 0.8:
+                ops.append(['set', rng.choice(kept), 'again', ['t', [['r', n]]]])
+        if rng.random() < 0.3:
+            ops.append(['savepoint'])
+        ops.append(['commit'])
     return case
 
 
@@ -1315,6 +1489,15 @@ CORPUS = [
         ['set', 'p', 'a', ['r', 'c1']], ['set', 'p', 'b', ['r', 'c2']],
         ['root', 0, 'p', 'p'], ['poison', 'c2'], ['commit'], ['unpoison', 'c2'],
         ['root', 0, 'p', 'p'], ['commit']]),
+    # rollback to an earlier savepoint, then the SAME in-memory object (created after that savepoint and
+    # written by a later one) is attached again: it must be stored by the commit
+    dict(ndb=1, xrefs=[1, 1], oids=[[], [], []], legacy=False, fresh_each=True, reset=False, ops=[
+        ['new', 'h', 'N'], ['root', 0, 'h', 'h'], ['commit'],
+        ['set', 'h', 'v', ['a', 1]], ['savepoint'],
+        ['new', 'x', 'N'], ['new', 'y', 'A'], ['set', 'x', 'f', ['l', [['r', 'y'], ['r', 'x']]]],
+        ['set', 'h', 'child', ['r', 'x']], ['savepoint'],
+        ['rollback', 0],
+        ['set', 'h', 'child', ['t', [['r', 'x'], ['a', 5]]]], ['commit']]),
     # a pooled connection reopened after ZODB.Connection.resetCaches(): one cache for references and get()
     dict(ndb=1, xrefs=[1, 1], oids=[[], [], []], legacy=False, fresh_each=False, reset=True, storage='file', ops=[
         ['new', 'a', 'N'], ['new', 'b', 'N'], ['new', 'shared', 'N'],
